@@ -531,16 +531,21 @@ SeqNext == SeqPoll \/ SeqTso \/ SeqCacheAdd \/ SeqFlush
 \* REPAIR LOOP  (retry.asyncFifoRetryImpl)
 
 \* look at the head; read the newest stored version of its key            gates: retry.step, kv.iter
+\* (fault kind "rerr": the read fails; the entry stays where it is and is looked at again in the next round)
 RetryGet ==
     /\ rpc = "idle" /\ retryQ # << >>
-    /\ LET e == Head(retryQ)  l == LatestK(e.key) IN
-       IF l = NoVer \/ l.rev # e.rev
-       THEN \* not ours any more (or never landed): nothing to repair, drop the entry
-            /\ retryQ' = Tail(retryQ) /\ UNCHANGED <<rpc, rloc>>
-       ELSE /\ rloc' = [ev |-> e, rev |-> 0, val |-> l.val]
-            /\ rpc' = "deal" /\ UNCHANGED retryQ
-    /\ H("retry", "RetryGet", "retry.step")
-    /\ UNCHANGED <<store, floor, dealt, committed, slot, wvars, seqvars, chan, cache, faults, xvars, acked, maxRet, emitted, kinit, rdvars, cvars>>
+    /\ \E a \in ReadAnswers :
+      /\ faults' = IF a = "rerr" THEN faults + 1 ELSE faults
+      /\ HF("retry", "RetryGet", "retry.step", IF a = "rerr" THEN "rerr" ELSE "", 0)
+      /\ LET e == Head(retryQ)  l == LatestK(e.key) IN
+         IF a = "rerr"
+         THEN UNCHANGED <<retryQ, rpc, rloc>>
+         ELSE IF l = NoVer \/ l.rev # e.rev
+         THEN \* not ours any more (or never landed): nothing to repair, drop the entry
+              /\ retryQ' = Tail(retryQ) /\ UNCHANGED <<rpc, rloc>>
+         ELSE /\ rloc' = [ev |-> e, rev |-> 0, val |-> l.val]
+              /\ rpc' = "deal" /\ UNCHANGED retryQ
+    /\ UNCHANGED <<store, floor, dealt, committed, slot, wvars, seqvars, chan, cache, xvars, acked, maxRet, emitted, kinit, rdvars, cvars>>
 
 RetryDeal ==
     /\ rpc = "deal"
